@@ -117,7 +117,8 @@ partial def hasDigitless : Spec.Json → Bool
   | _ => false
 end
 
-/-- the recorded findings of C04 an element batch falls into (A10 pg_lsn, A11 tid, A16 numrange, A17 path / polygon) -/
+/-- the recorded findings of C04 an element batch falls into (A10 pg_lsn, A11 tid; A16 numrange and A17 path / polygon are
+repaired: fixes/scalars/14, 15) -/
 def kfOf (vs : List Val) : List String :=
   Driver.Fam.Scalars.dedup (vs.flatMap Driver.Fam.Scalars.kfTags)
 
